@@ -205,7 +205,12 @@ func c02Value(c *wk.Case) {
 	var prog *ref.Node
 	argNames := []string{"arg0"}
 	var p *gen.Program
-	if c.Index%3 == 0 {
+	if c.Index%7 == 5 {
+		// a constant container used by argument-dependent operations, evaluated on several tuples one after the
+		// other: an operation working in place on the folded constant shows from the second evaluation on
+		p = c10ConstProgram(c.Rng, false)
+		prog, argNames = p.Root, p.ArgNames
+	} else if c.Index%3 == 0 {
 		g := gen.NewPG(c.Rng, c02dials)
 		prog = c02Shape(g, int(c.Index/3))
 		p = &gen.Program{ArgNames: argNames, ArgTypes: []*gen.Ty{gen.TInt}}
